@@ -550,6 +550,7 @@ class Path:
         self.inputs = {}        # name -> z3 const
         self.obls = []          # (name, formula, n_assume, using)
         self.gen = {}           # obligation index -> terms to generalise
+        self.lemma_idx = set()  # indices into self.assume that are lemmas (obligations themselves)
         self.hints = []
         self.solver = z3.Solver()
         self.solver.set("timeout", explorer.branch_timeout_ms)
@@ -797,7 +798,8 @@ class SymCtx:
         the same path (never to itself or earlier ones)"""
         f = fbool(cond)
         self.ensure(name, f, using=using, generalize=generalize)
-        self.path.add_assume(f)
+        self.path.lemma_idx.add(len(self.path.assume))
+        self.path.assume.append(f)     # not given to the branch-feasibility solvers
         return f
 
     def done(self):
@@ -1276,6 +1278,9 @@ def uf_apps(formulas):
     return out, seen
 
 
+_FACT_APPS = {}     # id(fact) -> (fact, frozenset of application ids); the fact is kept alive
+
+
 def relevant_facts(facts, formulas, path=None):
     """facts all of whose function applications occur in `formulas` (sin/cos of the same
     argument count as one unit)"""
@@ -1287,8 +1292,12 @@ def relevant_facts(facts, formulas, path=None):
                 want.add(s.get_id())
     res = []
     for f in facts:
-        apps, keep2 = uf_apps([f])
-        if apps <= want:
+        ent = _FACT_APPS.get(id(f))
+        if ent is None or ent[0] is not f:
+            apps, keep2 = uf_apps([f])
+            ent = (f, frozenset(apps), keep2)
+            _FACT_APPS[id(f)] = ent
+        if ent[1] <= want:
             res.append(f)
     return res
 
